@@ -72,14 +72,17 @@ AdjM(A) == [i \in 1..Len(A) |-> [j \in 1..Len(A) |-> CConj(A[j][i])]]
 AddM(A, B) == [i \in 1..Len(A) |-> [j \in 1..Len(A) |-> CAdd(A[i][j], B[i][j])]]
 MulI(A) == [i \in 1..Len(A) |-> [j \in 1..Len(A) |-> CMul(<<0, -1>>, A[i][j])]]        \* -i A
 Components(c, b) ==        \* S, L (list of r matrices), M (list of r matrices) of site/bond b (0-based)
+    \* share: site-dependent lists whose S and L entries are the same for every site (the caller passes one array object
+    \* several times), only M differs from site to site
     LET sb == IF c.hom THEN 0 ELSE b
+        sl == IF c.hom \/ ("share" \in DOMAIN c /\ c.share) THEN 0 ELSE b
     IN  IF c.herm
         THEN LET B == MatC(c.seed, sb, 1, c.n, 2)
                  Cm == MatC(c.seed, sb, 2, c.n, 3)
                  Sh == AddM(MatC(c.seed, sb, 3, c.n, 1), AdjM(MatC(c.seed, sb, 3, c.n, 1)))
              IN  [S |-> MulI(Sh), L |-> <<MulI(B), MulI(AdjM(B))>>, M |-> <<Cm, AdjM(Cm)>>]
-        ELSE [S |-> Mat(c.seed, sb, 3, c.n, 1),
-              L |-> [k \in 1..c.r |-> Mat(c.seed, sb, k, c.n, 2)],
+        ELSE [S |-> Mat(c.seed, sl, 3, c.n, 1),
+              L |-> [k \in 1..c.r |-> Mat(c.seed, sl, k, c.n, 2)],
               M |-> [k \in 1..c.r |-> Mat(c.seed, sb, k, c.n, 3)]]
 \* xr: a real-valued (real dtype) initial state also for the complex generators -iH
 StateCores(c) == FillCores(IF c.herm /\ ~c.xr THEN "complex" ELSE "real", c.seed + 2,
@@ -91,6 +94,8 @@ Configs ==
         d \in 2..(IF Level = 1 THEN 3 ELSE 5), n \in {2} \cup (IF Level = 1 THEN {} ELSE {3}), r \in 1..2,
         hom \in BOOLEAN, herm \in BOOLEAN, seed \in {1, 2}, xr \in BOOLEAN} :
             (~c.herm => c.xr) /\ (c.d = 5 => c.n = 2 /\ c.r = 1 /\ c.seed = 1)}
+    \cup {[d |-> d, n |-> 2, r |-> 2, hom |-> FALSE, herm |-> FALSE, seed |-> seed, xr |-> TRUE, share |-> TRUE] :
+            d \in {4, 5}, seed \in {1, 2}}
     \cup (IF Level = 1 THEN {[d |-> 4, n |-> 2, r |-> 1, hom |-> FALSE, herm |-> TRUE, seed |-> 1, xr |-> FALSE],
                               [d |-> 5, n |-> 2, r |-> 1, hom |-> TRUE, herm |-> TRUE, seed |-> 1, xr |-> TRUE],
                               [d |-> 2, n |-> 3, r |-> 2, hom |-> TRUE, herm |-> FALSE, seed |-> 1, xr |-> TRUE]} ELSE {})
